@@ -18,14 +18,20 @@ PROP = {
             'pod (+ not-ready replacement), job succeeds / fails / aborted, job deleted, pod readiness flips, pod starts terminating, pod '
             'vanishes, arbitrator restart (new arbitratorImpl with empty in-memory state on the same fake API, every non-finished job '
             'replayed through the real create-event handler in a drawn order), arbitration round; every case ends with a round. Non-trivial = before some round a limited scope had exactly one free slot and at least two '
-            'admissible waiting jobs. distinct = FNV-64 of caps/limits + full history.',
+            'admissible waiting jobs. arbitrationEvents = the same state machine plus (i) delivery of the Update events of the jobs written by a '
+            'round (passed job: annotation written, phase still empty; failed job) to the real event handler after every round, (ii) pods with '
+            'the evict override annotation (1/10 of the pods) and an action that asks Filter for annotated pods again and again. distinct = FNV-64 of caps/limits + full history.',
     'assumptions': [
         'evictions issued = eviction API calls answered with success by the (fake) API server; a failed call evicts nothing and may be '
         'followed by further attempts',
         'in dry-run only "no API call" is asserted for PodEvictor (it does not count simulated evictions); evictorProxy counts simulated '
         'evictions, its counters are compared with the accepted requests',
         'pods carrying the explicit override annotation descheduler.alpha.kubernetes.io/evict (which bypasses every filter by design) are '
-        'not generated',
+        'generated only in arbitrationEvents; a job admitted for such a pod raises the bound of its scopes by one for that round (bound = '
+        'max(limit, count before) + admissions forced by the annotation) and can never be a legally Failed job; the clause "no second job '
+        'for a pod with a live job" is asserted for them as for any pod',
+        'arbitrationEvents: after every round the Update events of all jobs the round has written are delivered to the real '
+        'arbitrationHandler before anything else happens (watch latency << arbitration interval)',
         'at most one live PodMigrationJob per pod is generated (jobs are created for pods without a live job, or through arbitrator.Filter), '
         'so "jobs" and "pods being migrated" coincide',
         'a waiting job whose pod no longer exists is admitted unconditionally by the arbitrator (arbitrator.go filtering(pod==nil)); such a '
@@ -65,7 +71,7 @@ PROP = {
          'files': ['C16/c16_arbitrator_test.go'],
          'tests': [{'run': 'TestVerifC16ArbitrationRounds', 'quick': 300, 'quick_shards': 4, 'thorough': 1200, 'steps': 50,
                     'shrinktime': '15s'},
-                   {'run': 'TestVerifC16ArbitrationEvents', 'quick': 300, 'quick_shards': 4, 'thorough': 1200, 'steps': 50,
+                   {'run': 'TestVerifC16ArbitrationEvents', 'quick': 150, 'quick_shards': 4, 'thorough': 1200, 'steps': 50,
                     'shrinktime': '15s'}]},
     ],
     'manifest': {
